@@ -102,6 +102,7 @@ def evaluate(ctx, progs, fuel="200000"):
     cov.update({
         "core_programs_consistent(Wt.wtProg)": n_wt,
         "in_fragment_of_sem_preserves_types_partial(sigClosedB && ValTy.okProg)": n_in,
+        "fragment_flag": "okProg S P true = hypothesis of sem_preserves_types_store_partial (reference builtins admitted; Props/C03.lean, namespace ValTyR)",
         "of_those_with_a_trait_call_in_Core": n_in_tc,
         "outside_by_first_reason": dict(sorted(why.items(), key=lambda kv: -kv[1])),
         "programs_outside_first_because_of_a_condition_stronger_than_Wt(enum field read without the variant fact, struct/enum kind, dispatch row signature, exact callee instance)": n_stronger,
@@ -126,6 +127,6 @@ def collect_and_evaluate(ctx):
     return evaluate(ctx, progs)
 
 ASSUMPTIONS = [
-    "type soundness: `sem_preserves_types_partial` is about `Sem` and the judgement `Wt` on the fragment `ValTy.okE` (closures and function values included; no references, vectors, arrays, trait objects, `go`; callees are fragment expressions of function type or the printing / conversion builtins; enum field reads under an arm that established the variant; trait calls on any receiver when the dispatch table passes `implsOk`, else on concretely annotated receivers with a dispatch row of the annotated signature); outside it soundness is only validated by the runs",
+    "type soundness: `sem_preserves_types_partial` is about `Sem` and the judgement `Wt` on the fragment `ValTy.okE` (closures, function values, arrays, vectors and references (store-typed version, ValTyR) included; no trait objects, `go`; callees are fragment expressions of function type or the printing / conversion builtins; enum field reads under an arm that established the variant; trait calls on any receiver when the dispatch table passes `implsOk`, else on concretely annotated receivers with a dispatch row of the annotated signature); outside it soundness is only validated by the runs",
     "static dispatch: the oracle restores dynamic dispatch in the REAL Mono dump (key of the runtime receiver must be the key of the declared receiver type of the function mono chose) and compares `Sem` outcomes at the same fuel; programs whose plain run is not definite within the fuel are skipped",
 ]
